@@ -61,6 +61,16 @@ pub fn gen(seed: u64, tier: Tier) -> ScenarioSpec {
         3 => rec.gecko = None,
         _ => {}
     }
+    // the empty set of occupied ports: a recording nobody plays in (legal; before 2.2 its frames leave no bytes)
+    if rng.chance(1, 60) {
+        rec.ports.clear();
+        if !crate::layout::gte((rec.version[0], rec.version[1]), (2, 2)) {
+            rec.frames.clear();
+        }
+        for f in rec.frames.iter_mut() {
+            f.present = 0;
+        }
+    }
     let len = gen::approx_len(&rec);
     let mut spec = gen::base_spec(P, "S1", seed, rec);
     spec.stream = gen::gen_stream(&mut rng, len, false);
